@@ -18,4 +18,37 @@ def belowLimit (gSent gRcvd : Nat) : Bool := decide (gSent < 3 * gRcvd)
 /-- ghost: may the address count as validated after these events? -/
 def mayBeValidated (isClient cav sawHandshake : Bool) : Bool := isClient || cav || sawHandshake
 
+/-! ### the observable statement, on a wire trace
+
+What an observer at the server's socket sees of one connection: datagrams arriving from the client,
+datagrams leaving towards it, and (ghost) the moment the client's address counts as validated. -/
+
+inductive WireEv
+  | inn (n : Nat)
+  | out (n : Nat)
+  | validate
+deriving Repr, DecidableEq
+
+structure WireSt where
+  inB : Nat := 0
+  outB : Nat := 0
+  validated : Bool := false
+  /-- size of the last datagram sent -/
+  last : Nat := 0
+  /-- every datagram so far left either after validation or while strictly below three times the bytes received -/
+  ok : Bool := true
+deriving Repr, DecidableEq
+
+def WireSt.step (w : WireSt) : WireEv → WireSt
+  | .inn n => { w with inB := w.inB + n }
+  | .out n => { w with outB := w.outB + n, last := n, ok := w.ok && (w.validated || belowLimit w.outB w.inB) }
+  | .validate => { w with validated := true }
+
+def wireRun (validated0 : Bool) (evs : List WireEv) : WireSt := evs.foldl WireSt.step { validated := validated0 }
+
+/-- THE PROPERTY on a wire trace: until the address is validated, no datagram leaves unless the bytes sent
+    before it are strictly fewer than three times the bytes received before it — i.e. the total is at most
+    3 × received plus the one datagram that was already permitted when the limit was reached. -/
+def wireOk (validated0 : Bool) (evs : List WireEv) : Bool := (wireRun validated0 evs).ok
+
 end Uquic.Spec.AmpMon
